@@ -12,10 +12,8 @@ import (
 	"sync"
 	"time"
 
-	"golang.org/x/tools/go/ssa"
 )
 
-func (e *Engine) guardFor(fv *FV, st *State, m ssa.Value) *Term { return nil }
 
 // query builds the SMT-LIB text for an obligation.
 func (fv *FV) query(o *Obligation, forCVC5 bool) string {
